@@ -138,12 +138,21 @@ def run(ck):
         f = sk.fns.get(P + fn)
         if not ck.anchor("C11-P", P + fn, f):
             continue
-        for x in f["exits"]:
-            r = sk.exit_result(x)
-            if r and r[0][0] == "ok":
-                ch = sk.chain(sk.rem_of(r[0][1]), f["inp"], x, f["ps"])
-                s = " ".join(tok(c) for c in ch) if ch is not None else None
-                ck.judge(s == "opt(whitespace) tag(%s) opt(whitespace)" % sep, "C11-P", "%s:skeleton" % fn, "%s = %s" % (fn, s), "%s has skeleton `%s`, expected ws? '%s' ws?" % (fn, s, sep))
+        # the language the separator consumes (sub-parsers and helpers expanded): ws? sep ws?
+        got = sk.language(("fn", P + fn))
+        wsl = sk.language(("fn", P + "whitespace"))
+        one = ("one", frozenset([ord(sep)]))
+        want = None
+        if wsl is not None:
+            want = set()
+            for a in [()] + sorted(wsl):
+                for b in [()] + sorted(wsl):
+                    want.add(tuple(a) + (one,) + tuple(b))
+
+        def shw(q):
+            return " ".join(("%s%s" % (bytecls.show_set(t[1]), "*" if t[0] == "many" else "")) for t in q) or "(nothing)"
+        ck.judge(got is not None and want is not None and got == want, "C11-P", "%s:skeleton" % fn, "%s consumes ws? '%s' ws?" % (fn, sep),
+                 "%s consumes %s, expected ws? '%s' ws?" % (fn, "a language that cannot be computed" if got is None else sorted(shw(q) for q in got)[:6], sep))
 
     # ---- C: case closure of header / number classes
     n = 0
